@@ -452,6 +452,17 @@ class Item:
         self.log.append((rule, 'header: %s -> %s' % (pat, repl)))
         return self
 
+    def drop_fns(self, names):
+        """Remove the listed fns from a block item (trait / impl); logged as R5."""
+        if hasattr(self, '_splices'):
+            raise ExtractError('%s: drop_fns after ghost splices' % self.name)
+        for nm in names:
+            s = Src(self.text, self.name)
+            st, sig_end, bo, bc = s.find_fn(nm)
+            self.text = s.text[:st] + s.text[bc + 1:]
+        self.log.append(('R5', 'methods not taken into the unit: ' + ', '.join(names)))
+        return self
+
     def keep_methods(self, names):
         """For impl items: drop every fn not listed (logged as R5 when something is dropped)."""
         s = Src(self.text, self.name)
